@@ -194,8 +194,8 @@ Proof.
         split; [apply vars_match_mvars|split; [|reflexivity]]. cbn. unfold cur_ns. rewrite EF. inversion F as [|sc f0 scs fs (V & NS & BB) F' E1 E2]; subst.
         unfold cur_ns_of. rewrite <- E1. exact NS.
       + split; [cbn; lia|exact D].
-    - split; [reflexivity|]. exists [VNil]. split; [reflexivity|]. split; [reflexivity|]. split; [discriminate|left; reflexivity]. }
-  destruct (BR r1 c1 nf (fc :: rest) (c_values c0) [] [] A (or_intror eq_refl)) as (r2 & c2 & f2 & rest2 & S2 & A2 & MV & P2 & K2).
+    - split; [reflexivity|]. exists [VNil]. split; [reflexivity|]. split; [reflexivity|]. split; [discriminate|nil_case]. }
+  destruct (BR r1 c1 nf (fc :: rest) (c_values c0) [] [] A (fresh_one c1 (c_values c0) eq_refl)) as (r2 & c2 & f2 & rest2 & S2 & A2 & MV & P2 & K2).
   { cbn. rewrite app_nil_r. reflexivity. }
   { reflexivity. }
   destruct A2 as ((G2 & EF2 & M2 & B2 & D2) & LB2 & top & EV2 & RR).
@@ -352,7 +352,7 @@ Proof.
     replace (length top + length below - length below) with (length top) by lia. rewrite skipn_app, skipn_all, Nat.sub_diag. reflexivity. }
   destruct (run_one r c f rest IEnd _ G EF N EX) as [S1 G1].
   { destruct G as (_ & _ & _ & _ & _ & _ & SU). exact SU. }
-  exists (upd_cur r (set_values c1 below)), (set_values c1 below). split; [exact S1|]. split; [|left; reflexivity]. split.
+  exists (upd_cur r (set_values c1 below)), (set_values c1 below). split; [exact S1|]. split; [|nil_case]. split.
   - split; [exact G1|]. split; [reflexivity|]. split; [apply match_upd, match_set_pos; exact M|].
     split; [cbn; lia|rewrite quirks_upd_cur; exact D].
   - split; [exact LB|]. exists []. split; reflexivity.
